@@ -3,6 +3,7 @@
 package main
 
 import (
+	"bytes"
 	"math/big"
 
 	secp "github.com/ModChain/secp256k1"
@@ -40,6 +41,22 @@ func init() {
 		k3, e3 := secp.ParsePubKey(u)
 		if e2 != nil || e3 != nil || !k.IsEqual(k2) || !k.IsEqual(k3) {
 			return "ROUNDTRIP-MISMATCH"
+		}
+		// the key keeps nothing of the input and hands out memory of its own; IsOnCurve holds for every parsed key
+		for i := range b {
+			b[i] ^= 0x5a
+		}
+		if !bytes.Equal(k.SerializeCompressed(), c) {
+			return "KEY-ALIASES-INPUT"
+		}
+		if m := scribbleStable("SerializeCompressed", func() []byte { return k.SerializeCompressed() }); m != "" {
+			return m
+		}
+		if m := scribbleStable("SerializeUncompressed", func() []byte { return k.SerializeUncompressed() }); m != "" {
+			return m
+		}
+		if !k.IsOnCurve() || !k2.IsOnCurve() || !k3.IsOnCurve() {
+			return "PARSED-KEY-REPORTED-OFF-CURVE"
 		}
 		return "ok " + hx(c) + " " + hx(u)
 	}
